@@ -5,9 +5,10 @@ CONSTANTS
   AtomsInPlay <- MCAtoms
   SlotsInPlay <- MCSlots
   Messages <- MCMessages
-  MaxMsgs = 4
+  MaxMsgs = 3
   ReaderIgnoresSegment = FALSE
-INVARIANT Resolved
-INVARIANT CachesAgree
+
+
 VIEW HView
+ACTION_CONSTRAINT Emit
 CHECK_DEADLOCK FALSE
